@@ -329,6 +329,9 @@ def main(tier):
     ck.add_units(units, specs)
     rule_AB(ck, units)
     rule_C(ck, units)
+    # Chebyshev smoothing contracts only when its bounds are estimated for the operator it iterates on (shared with C06)
+    import c06
+    c06.rule_chebyshev_bounds(ck, units, which=('cheb',))
     ck.assumptions += ['the residual is recognised by the backend::residual primitive (a rewrite through spmv + axpby would need the rule extended)',
                        'callee effects on the smoother scratch argument are derived from the instantiated smoothers',
                        'that B is SPD, that rho(I - BA) < 1 and exact power-of-two scaling are spectral statements and not decided']
